@@ -713,13 +713,20 @@ func main() {
 				c.Hi, c.Lo = pickEmb(), pickEmb()
 			}
 			c.LE = (idx+k)%2 == 0
+			if k > 0 {
+				c.PickUnknown(rng)
+				if k%2 == 1 {
+					c.SetParseOps(rng)
+				}
+			}
 			runCase(&h, idx, &cs, c, rng, *expand, true)
 			// once per x86 case: the same policy compiled for the x32 description of the architecture (Compile!DecideX32Target)
-			if k == 0 && cs.Pol.X86 && !cs.Reject && len(cs.IdealX32) == len(h.Events) {
+			if k == 0 && cs.Pol.X86 && (cs.Reject || len(cs.IdealX32) == len(h.Events)) {
 				cx := *c
 				cx.Arch = arch.X32
 				if sys, err := polcase.PickSyscalls(cx.Arch, h.NSys, "mixed", rng); err == nil {
 					cx.Sys = sys
+					cx.PickUnknown(rng)
 					runCase(&h, idx, &cs, &cx, rng, *expand, false)
 				}
 			}
